@@ -6,7 +6,7 @@
   THE FRAGMENT (`SInFragment`): programs over global `unsigned char` variables and constants built from
       v = a | v = a ∘ b | v ∘= a | v++ | v--                      ∘ ∈ {+, −, &, |, ^}     (stage 1)
       { S… } | if (c) S | if (c) S else S | while (c) S | do S while (c); | for (F; c; F) S   (stage 2)
-      c ::= a ⋈ b | v | !v | c && c | c || c | !(c)     ⋈ ∈ {==, !=, <, >=, >, <=}; no ordered comparison with literal 0, not two constants
+      c ::= a ⋈ b | v | !v     ⋈ ∈ {==, !=, <, >=, >, <=}; no ordered comparison with literal 0, not two constants
   nested to any depth, any length.
 
   PROVED for EVERY program of the fragment, every layout, every machine state, every generator state
@@ -26,13 +26,14 @@
    * `adc_after_clc`, `sbc_after_sec`, `negate_means_not`, `mirror_means_swap`: the arithmetic and
      operator-table facts the templates rest on.
   NOT covered by these theorems (covered by co-execution against CV.CSem in the check, partial):
-  nested expressions, 16-bit values, arrays, X/Y, switch, break/continue, calls,
+  nested expressions, 16-bit values, arrays, X/Y, && || in conditions, switch, break/continue, calls,
   signed types; optimisation levels above -O0 (C02's subject).
 -/
 import CV.Proofs.GenStructMain
 set_option linter.unusedSimpArgs false
+set_option linter.constructorNameAsVariable false
 namespace CV.C01
-open CV CV.GenFlat CV.GenStruct
+open CV CV.GenFlat CV.GenReg CV.GenStruct
 
 /-! ### stage 1 -/
 
@@ -54,27 +55,37 @@ theorem gen_block_correct (L : Layout) (sts : List FStmt) (s : Cpu) :
       s'.x = s.x ∧ s'.y = s.y ∧ s'.sp = s.sp :=
   GenFlat.gen_block_correct L sts s
 
-/-! ### stage 2 -/
+/-! ### stage 3: straight-line statements with the register variables X and Y -/
+
+/-- every statement lv = a | lv = a ∘ b | lv ∘= a | lv++ | lv-- with lv, a, b among variables, constants, X and Y;
+    every layout, every machine state: the code ends; memory, X and Y are what the source prescribes (`rspec`,
+    which includes the scratch cell the code really uses for a register right operand); SP is untouched; and
+    the generator's belief about the flags afterwards is true when it was true before -/
+theorem reg_stmt_correct (L : Layout) (st : RStmt) (fl : Option FRef) (s : Cpu) (hinv : FlagsInv L fl s) :
+    ∃ s', execSeq s (rgenOps L st) = some s' ∧ srcOf s' = rspec L (srcOf s) st ∧ s'.sp = s.sp ∧
+      FlagsInv L (flagsAfter fl st) s' :=
+  rflat_correct L st fl s hinv
+
+/-! ### stage 2: structured control flow over those statements -/
 
 /-- structured statements in any context -/
-theorem struct_correct_in_context (L : Layout) (st : SStmt) (fuel : Nat) (m m' : Mem)
-    (hsem : sem L fuel m st = some m') (hfr : SInFragment st = true)
+theorem struct_correct_in_context (L : Layout) (st : SStmt) (fuel : Nat) (σ σ' : SrcSt)
+    (hsem : sem L fuel σ st = some σ') (hfr : SInFragment st = true)
     (g : GState) (pre post : List GLine) (s : Cpu)
-    (hold : Old g pre) (hm : s.mem = m) (hflags : FlagsInv L g.flags s) :
+    (hold : Old g pre) (hm : srcOf s = σ) (hflags : FlagsInv L g.flags s) :
     ∃ s', Steps L (pre ++ (gen g st).1 ++ post) pre.length s (pre.length + (gen g st).1.length) s' ∧
-      s'.mem = m' ∧ FlagsInv L (gen g st).2.flags s' ∧ s'.x = s.x ∧ s'.y = s.y ∧ s'.sp = s.sp :=
-  correct_all L fuel st m m' hsem hfr g pre post s hold hm hflags
+      srcOf s' = σ' ∧ FlagsInv L (gen g st).2.flags s' ∧ s'.sp = s.sp :=
+  correct_all L fuel st σ σ' hsem hfr g pre post s hold hm hflags
 
 /-- a whole function body from its first line: a terminating run of the executable machine -/
-theorem struct_program_correct (L : Layout) (st : SStmt) (fuel : Nat) (m m' : Mem)
-    (hsem : sem L fuel m st = some m') (hfr : SInFragment st = true) (s : Cpu) (hm : s.mem = m) :
-    ∃ s' n, runG L (gen {} st).1 (gen {} st).1.length n 0 s = some s' ∧
-      s'.mem = m' ∧ s'.x = s.x ∧ s'.y = s.y ∧ s'.sp = s.sp := by
-  obtain ⟨s', hs, hmem, _, hx, hy, hsp⟩ :=
-    correct_all L fuel st m m' hsem hfr {} [] [] s (by intro l hl; simp at hl) hm trivial
+theorem struct_program_correct (L : Layout) (st : SStmt) (fuel : Nat) (σ σ' : SrcSt)
+    (hsem : sem L fuel σ st = some σ') (hfr : SInFragment st = true) (s : Cpu) (hm : srcOf s = σ) :
+    ∃ s' n, runG L (gen {} st).1 (gen {} st).1.length n 0 s = some s' ∧ srcOf s' = σ' ∧ s'.sp = s.sp := by
+  obtain ⟨s', hs, hmem, _, hsp⟩ :=
+    correct_all L fuel st σ σ' hsem hfr {} [] [] s (by intro l hl; simp at hl) hm trivial
   simp only [List.nil_append, List.append_nil, List.length_nil, Nat.zero_add] at hs
   obtain ⟨n, hn⟩ := hs.runG rfl
-  exact ⟨s', n, hn, hmem, hx, hy, hsp⟩
+  exact ⟨s', n, hn, hmem, hsp⟩
 
 /-- every label defined by generated code is new: allocated between the generator states before and
     after — so no label of a statement's code occurs in code generated earlier -/
@@ -95,19 +106,21 @@ example : demo.all InFragment = true := by decide
 example : genText (.bin "c" .add (.const 3) (.var "b")) = [(.LDA, "b"), (.CLC, ""), (.ADC, "#3"), (.STA, "c")] := by decide
 
 
-/-! non-vacuity of stage 2: a program with every production; a source loop whose meaning is defined -/
+/-! non-vacuity of stages 2 and 3: a program with every production; source loops whose meaning is defined -/
+def va (n : String) : RA := .of (.var n)
+def ca (n : Nat) : RA := .of (.const (BitVec.ofNat 8 n))
 def sdemo : SStmt :=
-  .seq (.flat (.asg "a" (.const 3)))
-  (.seq (.for (.asg "b" (.const 0)) (.cmp .lt (.var "b") (.const 5)) (.inc "b")
-          (.ifElse (.cmp .gt (.var "a") (.var "b")) (.flat (.opasg "c" .add (.var "b"))) (.flat (.dec "c"))))
-  (.seq (.while (.truth "a") (.seq (.flat (.dec "a")) (.ifThen (.cmp .eq (.const 0) (.var "a")) .skip)))
-        (.doWhile (.flat (.inc "d")) (.cmp .le (.var "d") (.const 9)))))
+  .seq (.flat (.asg (.var "a") (ca 3)))
+  (.seq (.for (.asg .x (ca 0)) (.cmp .lt .x (ca 5)) (.inc .x)
+          (.ifElse (.and (.cmp .gt (va "a") .x) (.not (.truth .y))) (.flat (.opasg (.var "c") .add .x)) (.flat (.dec .y))))
+  (.seq (.while (.truth (.var "a")) (.seq (.flat (.dec (.var "a"))) (.ifThen (.or (.cmp .eq (ca 0) (va "a")) (.nottruth .x)) .skip)))
+        (.doWhile (.flat (.bin .y .sub .y (va "d"))) (.cmp .le .y (ca 9)))))
 example : SInFragment sdemo = true := by decide
-example : ((gen {} sdemo).1.map GLine.text).length = 41 := by decide
-example (L : Layout) (m : Mem) (h : m.read (L "a") = 1) :
-    sem L 4 m (.doWhile (.flat (.dec "a")) (.truth "a")) = some (m.write (L "a") 0) := by
-  simp [sem, spec, evalCond, h]
-example (L : Layout) (m : Mem) : ∃ m', sem L 3 m (.ifElse (.truth "a") (.flat (.inc "b")) (.flat (.dec "b"))) = some m' := by
+example : ((gen {} sdemo).1.map GLine.text).length = 44 := by decide
+example (L : Layout) (σ : SrcSt) (h : σ.x = 1) :
+    sem L 4 σ (.doWhile (.flat (.dec .x)) (.truth .x)) = some { σ with x := 0 } := by
+  simp [sem, rspec, evalCond, wr, rval, LV.ra, h]
+example (L : Layout) (σ : SrcSt) : ∃ σ', sem L 3 σ (.ifElse (.truth .y) (.flat (.inc (.var "b"))) (.flat (.dec (.var "b")))) = some σ' := by
   simp only [sem]; split <;> exact ⟨_, rfl⟩
 
 end CV.C01
